@@ -61,6 +61,7 @@ Step(e) ==
     [] e.a = "CloseS"      -> CloseS(e.x, e.id)
     [] e.a = "Build"       -> Build(e.x, e.id, e.pur, e.bf)
     [] e.a = "Ack"         -> Ack
+    [] e.a = "Nack"        -> Nack
     [] OTHER -> FALSE
 
 TInit == Init /\ tid \in 1..Len(Traces) /\ l = 1
